@@ -185,6 +185,33 @@ func (w *World) deliversSchedulerCancel(g *ssa.Go) bool {
 		if mc, ok := v.(*ssa.MakeClosure); ok && strings.Contains(mc.Fn.Name(), "Cancel$bound") && strings.Contains(mc.Fn.String(), "Scheduler") {
 			found = true
 		}
+		// the function to run is a parameter of the spawner (a "run this on a tracked goroutine" helper):
+		// every caller hands it the scheduler's bound Cancel
+		if fv, ok := v.(*ssa.FreeVar); ok {
+			for i, x := range cl.FreeVars {
+				if x == fv {
+					if mc, ok := g.Call.Value.(*ssa.MakeClosure); ok && i < len(mc.Bindings) {
+						v = w.Resolve(mc.Bindings[i])
+					}
+				}
+			}
+		}
+		if prm, ok := v.(*ssa.Parameter); ok && prm.Parent() == g.Parent() {
+			pi := paramIdxOf(prm)
+			n, all := 0, true
+			for _, f := range w.ModFuncs {
+				for _, ci := range findCalls(f, func(_ string, cc *ssa.CallCommon) bool { return cc.StaticCallee() == g.Parent() }) {
+					n++
+					a := w.Resolve(ci.Common().Args[pi])
+					if mc, ok := a.(*ssa.MakeClosure); !ok || !strings.Contains(mc.Fn.Name(), "Cancel$bound") || !strings.Contains(mc.Fn.String(), "Scheduler") {
+						all = false
+					}
+				}
+			}
+			if n > 0 && all {
+				found = true
+			}
+		}
 	})
 	return found
 }
